@@ -6,7 +6,7 @@
 //! Oracle (`out.fail`): an independent RFC 4648 codec written below (bit accumulator, alphabet from character
 //! ranges) judges the implementation directly; it states the property only:
 //!   * encode(any partition of d) == rfc(d)
-//!   * reading rfc(d) through any (interrupt-free) reader schedule and any buffer sizes gives d, then end of input
+//!   * reading rfc(d) through any reader schedule (Interrupted calls included) and any buffer sizes gives d, then end of input
 //!   * text with length % 4 != 0 ends in an error, never in a clean end of input
 //!   * no input panics
 //! `O` lines: the verified Lean specification `rfcEncode` applied to the data must give the implementation's text.
@@ -66,10 +66,17 @@ struct SchedReader {
     sched: Vec<usize>,
     tail: usize,
     call: usize,
+    /// fail this call (counted over all calls) once with `WouldBlock`, deliver nothing, then go on
+    fail_at: Option<usize>,
+    ncalls: usize,
 }
 
 impl Read for SchedReader {
     fn read(&mut self, buf: &mut [u8]) -> std::io::Result<usize> {
+        self.ncalls += 1;
+        if self.fail_at == Some(self.ncalls - 1) {
+            return Err(std::io::Error::from(std::io::ErrorKind::WouldBlock));
+        }
         let max = match self.sched.get(self.call) {
             None if self.tail == 0 => usize::MAX,
             None => self.tail,
@@ -195,7 +202,7 @@ impl<R: Read> Read for Spy<R> {
 /// call it makes recorded.
 fn run_decoder(text: &[u8], sched: &Sched, dst: &Dst, extra: usize) -> DecRun {
     let dec =
-        Base64Decoder::new(SchedReader { data: text.to_vec(), pos: 0, sched: sched.0.clone(), tail: sched.1, call: 0 });
+        Base64Decoder::new(SchedReader { data: text.to_vec(), pos: 0, sched: sched.0.clone(), tail: sched.1, call: 0, fail_at: None, ncalls: 0 });
     match dst {
         Dst::Sizes(pattern) => run_sizes(dec, text.len(), pattern, extra),
         Dst::ToEnd | Dst::ToString => {
@@ -348,6 +355,55 @@ impl Ctx {
         }
     }
 
+    /// Out of the property's scope, exercised for the record (level_note): the underlying reader fails ONCE with a
+    /// transient error other than `Interrupted` (`WouldBlock`) and then goes on. `buffer_fill` returns the error
+    /// to the caller and forgets the 1-3 bytes of the group it had already taken from the reader, so a caller
+    /// that retries gets a shifted stream. Judged here: no panic, and the reader's error reaches the caller.
+    /// Counted only: whether d still arrives when the caller retries.
+    fn wouldblock_case(&mut self, data: &[u8], per_call: usize, fail_at: usize, size: usize) {
+        let text = rfc_encode(data);
+        let mut dec = Base64Decoder::new(SchedReader {
+            data: text.clone(),
+            pos: 0,
+            sched: vec![],
+            tail: per_call,
+            call: 0,
+            fail_at: Some(fail_at),
+            ncalls: 0,
+        });
+        let mut buf = vec![0u8; size];
+        let mut got = Vec::new();
+        let mut errors = 0;
+        let mut panicked = false;
+        for _ in 0..8 * (text.len() + 1) + 64 {
+            match guarded(|| dec.read(&mut buf)) {
+                Err(()) => {
+                    panicked = true;
+                    break;
+                }
+                Ok(Err(_)) => errors += 1,
+                Ok(Ok(0)) => break,
+                Ok(Ok(k)) => got.extend_from_slice(&buf[..k.min(size)]),
+            }
+            if errors > 3 {
+                break;
+            }
+        }
+        self.out.case(&format!("wouldblock {} {per_call} {fail_at} {size}", hex(data)), true);
+        self.out.hist(if got == data { "wouldblock:retry-intact" } else { "wouldblock:retry-corrupt(out of scope)" });
+        let input = json!({"op": "wouldblock", "data": hex(data), "per_call": per_call, "fail_at": fail_at, "size": size});
+        if panicked {
+            self.out.fail("Base64Decoder panics after a transient reader error", input, json!("no panic"), json!("panic"));
+        } else if errors == 0 && got != data {
+            self.out.fail(
+                "an error of the underlying reader is swallowed and the decoded bytes are wrong",
+                input,
+                json!("the reader's error is returned to the caller"),
+                json!(format!("no error, {}", hex(&got))),
+            );
+        }
+    }
+
     /// `plain`: `Some(d)` when `text` is the RFC encoding of `d` (round-trip obligation), `None` for arbitrary text
     fn dec_case(&mut self, kind: &str, text: &[u8], plain: Option<&[u8]>, sched: &Sched, dst: &Dst) {
         let run = run_decoder(text, sched, dst, 2);
@@ -414,41 +470,75 @@ fn schedules(rng: &mut Rng, text_len: usize, thorough: bool) -> Vec<(&'static st
     v
 }
 
-fn size_patterns(rng: &mut Rng, thorough: bool) -> Vec<(&'static str, Vec<usize>)> {
-    let mut v: Vec<(&'static str, Vec<usize>)> = vec![
-        ("dst=1", vec![1]),
-        ("dst=2", vec![2]),
-        ("dst=3", vec![3]),
-        ("dst=63", vec![63]),
-        ("dst=64", vec![64]),
-        ("dst=65", vec![65]),
-        ("dst=4096", vec![4096]),
+fn size_patterns(rng: &mut Rng, thorough: bool) -> Vec<(&'static str, Dst)> {
+    let mut v: Vec<(&'static str, Dst)> = vec![
+        ("dst=1", Dst::Sizes(vec![1])),
+        ("dst=2", Dst::Sizes(vec![2])),
+        ("dst=3", Dst::Sizes(vec![3])),
+        ("dst=63", Dst::Sizes(vec![63])),
+        ("dst=64", Dst::Sizes(vec![64])),
+        ("dst=65", Dst::Sizes(vec![65])),
+        ("dst=4096", Dst::Sizes(vec![4096])),
+        ("dst=read_to_end", Dst::ToEnd),
+        ("dst=read_to_string", Dst::ToString),
     ];
-    v.push(("dst=random", (0..7).map(|_| *rng.pick(&[0usize, 1, 2, 3, 4, 5, 7, 20, 62, 63, 64, 65, 66, 130])).chain([1]).collect()));
+    // at most 8 entries, the last one non-empty (the cap of `run_sizes` relies on it)
+    v.push(("dst=random", Dst::Sizes((0..7).map(|_| *rng.pick(&[0usize, 1, 2, 3, 4, 5, 7, 20, 62, 63, 64, 65, 66, 130])).chain([1]).collect())));
     if thorough {
-        v.push(("dst=random", (0..5).map(|_| rng.below(200) as usize).chain([3]).collect()));
-        v.push(("dst=61", vec![61]));
-        v.push(("dst=62", vec![62]));
-        v.push(("dst=126", vec![126]));
+        v.push(("dst=random", Dst::Sizes((0..5).map(|_| rng.below(200) as usize).chain([3]).collect())));
+        v.push(("dst=61", Dst::Sizes(vec![61])));
+        v.push(("dst=62", Dst::Sizes(vec![62])));
+        v.push(("dst=126", Dst::Sizes(vec![126])));
     }
     v
 }
 
-fn partitions(rng: &mut Rng, data: &[u8], thorough: bool) -> Vec<(&'static str, Vec<Vec<u8>>)> {
+fn writes(chunks: Vec<Vec<u8>>) -> Vec<Op> {
+    chunks.into_iter().map(Op::Write).collect()
+}
+
+/// `flush` after every write (every carry state 0, 1, 2 sees a flush), at the start and before `finish`
+fn flush_every(chunks: Vec<Vec<u8>>) -> Vec<Op> {
+    let mut ops = vec![Op::Flush];
+    for c in chunks {
+        ops.push(Op::Write(c));
+        ops.push(Op::Flush);
+    }
+    ops
+}
+
+fn partitions(rng: &mut Rng, data: &[u8], thorough: bool) -> Vec<(&'static str, Vec<Op>)> {
     let n = data.len();
     let every = |k: usize| -> Vec<usize> { (1..).map(|i| i * k).take_while(|c| *c < n).collect() };
     let mut v = vec![
-        ("part=whole", vec![data.to_vec()]),
-        ("part=1", split(data, &every(1))),
-        ("part=2", split(data, &every(2))),
-        ("part=4", split(data, &every(4))),
+        ("part=whole", writes(vec![data.to_vec()])),
+        ("part=1", writes(split(data, &every(1)))),
+        ("part=2", writes(split(data, &every(2)))),
+        ("part=4", writes(split(data, &every(4)))),
+        ("part=1+flush", flush_every(split(data, &every(1)))),
+        ("part=4+flush", flush_every(split(data, &every(4)))),
     ];
     let reps = if thorough { 6 } else { 2 };
-    for _ in 0..reps {
+    for r in 0..reps {
         let k = rng.below(n as u64 / 2 + 3) as usize;
         let mut cuts: Vec<usize> = (0..k).map(|_| rng.below(n as u64 + 1) as usize).collect();
         cuts.sort();
-        v.push(("part=random", split(data, &cuts)));
+        if r % 2 == 0 {
+            v.push(("part=random", writes(split(data, &cuts))));
+        } else {
+            // flush calls at random points of the partition
+            let mut ops = Vec::new();
+            for c in split(data, &cuts) {
+                while rng.chance(1, 3) {
+                    ops.push(Op::Flush);
+                }
+                ops.push(Op::Write(c));
+            }
+            if rng.chance(1, 2) {
+                ops.push(Op::Flush);
+            }
+            v.push(("part=random+flush", ops));
+        }
     }
     v
 }
@@ -537,25 +627,46 @@ fn usizes(v: &Value) -> Vec<usize> {
 fn replay(ctx: &mut Ctx, input: &Value) {
     match input["op"].as_str() {
         Some("enc") => {
-            let chunks: Vec<Vec<u8>> =
-                input["chunks"].as_array().map(|a| a.iter().map(|c| unhex(c.as_str().unwrap_or("-"))).collect()).unwrap_or_default();
-            ctx.enc_case("replay", &chunks);
+            let toks = if input["ops"].is_array() { &input["ops"] } else { &input["chunks"] };
+            let ops: Vec<Op> = toks
+                .as_array()
+                .map(|a| {
+                    a.iter()
+                        .map(|c| match c.as_str().unwrap_or("-") {
+                            "flush" => Op::Flush,
+                            h => Op::Write(unhex(h)),
+                        })
+                        .collect()
+                })
+                .unwrap_or_default();
+            ctx.enc_case("replay", &ops);
         }
         Some("dec") => {
             let text = unhex(input["text"].as_str().unwrap_or("-"));
             let plain = input["plain"].as_str().map(unhex);
-            let mut pattern = usizes(&input["sizes"]);
-            if pattern.is_empty() {
-                pattern.push(1);
-            }
+            let dst = match input["sizes"].as_str() {
+                Some("read_to_end") => Dst::ToEnd,
+                Some("read_to_string") => Dst::ToString,
+                _ => {
+                    let mut pattern = usizes(&input["sizes"]);
+                    if pattern.is_empty() {
+                        pattern.push(1);
+                    }
+                    Dst::Sizes(pattern)
+                }
+            };
             let sched: Sched = (usizes(&input["sched"]), input["tail"].as_u64().unwrap_or(0) as usize);
-            ctx.dec_case("replay", &text, plain.as_deref(), &sched, &pattern);
+            ctx.dec_case("replay", &text, plain.as_deref(), &sched, &dst);
+        }
+        Some("wouldblock") => {
+            let g = |k: &str| input[k].as_u64().unwrap_or(1) as usize;
+            ctx.wouldblock_case(&unhex(input["data"].as_str().unwrap_or("-")), g("per_call"), g("fail_at"), g("size").max(1));
         }
         _ => {}
     }
 }
 
-const RULE: &str = "encoder: every length 0..=L (L = 200 quick / 400 thorough) of random bytes plus all-sextet / all-byte covering data, each in the partitions whole, 1, 2, 4 and random cuts (empty chunks included); decoder round trip: RFC text of the same data x reader schedules {unrestricted, 1, 2, 3, 4, 5, 7, 64 per call for ever, random 1..5 per call, random with Interrupted} x destination sizes {1, 2, 3, 63, 64, 65, 4096, random mix incl. 0} (full product up to length 400, two data per white-box length 0-4, 46-50, 62-67, 83-86, 93-97, 125-128, 189-192; a rotating quarter of the product for the long random data of the thorough tier); malformed: random bytes, alphabet-only text of every length mod 4, stray padding, damaged valid text, padded groups in mid-stream (reaches buffer sizes 61, 62, 64); non-trivial = non-empty data/text; distinct by request line";
+const RULE: &str = "encoder: every length 0..=L (L = 200 quick / 400 thorough) of random bytes plus all-sextet / all-byte covering data, each in the partitions whole, 1, 2, 4 and random cuts (empty chunks included), with and without flush() calls (after every write, at random points); decoder round trip: RFC text of the same data x reader schedules {unrestricted, 1, 2, 3, 4, 5, 7, 64 per call for ever, random 1..5 per call, random with Interrupted} x destinations {read sizes 1, 2, 3, 63, 64, 65, 4096, random mix incl. 0; read_to_end; read_to_string on UTF-8 data} (every read call std makes is recorded and compared) (full product up to length 400, two data per white-box length 0-4, 46-50, 62-67, 83-86, 93-97, 125-128, 189-192; a rotating quarter of the product for the long random data of the thorough tier); malformed: random bytes, alphabet-only text of every length mod 4, stray padding, damaged valid text, padded groups in mid-stream (reaches buffer sizes 61, 62, 64); transient WouldBlock of the reader: no panic, error not swallowed (no correspondence; out of the property's scope); non-trivial = non-empty data/text; distinct by request line";
 
 fn main() {
     let cfg = Cfg::from_env();
@@ -587,6 +698,15 @@ fn main() {
     }
     datas.push(vec![0u8; 66]);
     datas.push(vec![255u8; 65]);
+    // valid UTF-8 (for `read_to_string`): ASCII of the white-box lengths and some multi-byte text
+    for n in (0..=max_len).filter(|n| whitebox(*n) || n % 23 == 0) {
+        datas.push((0..n).map(|_| 32 + rng.below(95) as u8).collect());
+    }
+    for _ in 0..8 {
+        let k = rng.below(70) as usize;
+        let t: String = (0..k).map(|_| *rng.pick(&['a', 'é', '€', '𝄞', ' ', 'ß', '中'])).collect();
+        datas.push(t.into_bytes());
+    }
     datas.extend(covering_data());
     if cfg.thorough {
         for _ in 0..40 {
@@ -597,8 +717,8 @@ fn main() {
 
     let mut rot = 0usize;
     for data in &datas {
-        for (kind, chunks) in partitions(&mut rng, data, cfg.thorough) {
-            ctx.enc_case(kind, &chunks);
+        for (kind, ops) in partitions(&mut rng, data, cfg.thorough) {
+            ctx.enc_case(kind, &ops);
         }
         let text = rfc_encode(data);
         let scheds = schedules(&mut rng, text.len(), cfg.thorough);
@@ -609,6 +729,10 @@ fn main() {
                 // elsewhere: a rotating quarter of the product (every schedule and every size still occur
                 // for every length class over a few consecutive lengths)
                 if !full && (si + pi + rot) % 4 != 0 {
+                    continue;
+                }
+                // `read_to_string` rejects plain bytes that are not UTF-8: outside the property
+                if *pat == Dst::ToString && std::str::from_utf8(data).is_err() {
                     continue;
                 }
                 ctx.dec_case(&format!("{sk},{pk}"), &text, Some(data), sched, pat);
@@ -630,8 +754,22 @@ fn main() {
         let scheds = schedules(&mut rng, text.len(), false);
         let pats = size_patterns(&mut rng, false);
         let (_, sched) = rng.pick(&scheds).clone();
-        let (_, pat) = rng.pick(&pats).clone();
+        let (_, mut pat) = rng.pick(&pats).clone();
+        if pat == Dst::ToString {
+            pat = Dst::ToEnd; // an InvalidData error of `read_to_string` would hide a missing decode error
+        }
         ctx.dec_case(kind, &text, None, &sched, &pat);
+    }
+    // transient reader error (out of scope, see `wouldblock_case`)
+    let n_wb = if cfg.thorough { 20_000 } else { 1_500 };
+    for _ in 0..n_wb {
+        let n = rng.below(120) as usize;
+        let data = random_bytes(&mut rng, n);
+        let per_call = 1 + rng.below(5) as usize;
+        let calls = (4 * n.div_ceil(3)).div_ceil(per_call) + 2;
+        let fail_at = rng.below(calls as u64) as usize;
+        let size = *rng.pick(&[1usize, 3, 64, 100]);
+        ctx.wouldblock_case(&data, per_call, fail_at, size);
     }
     ctx.out.extra("lengths_exhaustive_up_to", json!(max_len));
     ctx.out.finish(RULE);
